@@ -212,7 +212,7 @@ REG.add(Contract(f"{RVD}._get_abstract_dependencies_without_realisations", modul
 REG.add(Contract(f"{RVD}._get_missing_dependencies_in_user_specified_order", module=M_RVD, kind="method",
                  params=dict(self=RVD, not_explicitly_requested_dependencies="Dict[Mod,Bag[Dep]]"), returns="Set[Dep]",
                  ensures=["forall(Dep, lambda x: (x in result) == missing_rel(self._module_requirement, not_explicitly_requested_dependencies, x))"],
-                 locals=dict(dependencies="Bag[Dep]"),
+                 locals=dict(dependencies="Bag[Dep]"), cases=["self._module_requirement._importer_specified_as_rule_subject"],
                  loops={
                      0: dict(sig="for (module_with_missing_dependencies, not_explicitly_requested_dependencies_of_module) in not_explicitly_requested_dependencies.items()", invariant=[
                          "forall(Dep, lambda y: (y in dependencies) == exists(Mod, Filter, lambda m, o: ((m, not_explicitly_requested_dependencies[m]) in seen) and (not nonempty(not_explicitly_requested_dependencies[m])) and (o in self._module_requirement._importees_as_specified_by_user) and y == ((m, f2m(o)) if self._module_requirement._importer_specified_as_rule_subject else (f2m(o), m))))"]),
